@@ -645,3 +645,22 @@ def validate_stateful(ctx, name, module, groups, max_parallel=6, timeout=3400):
             for r in cases_from(res["out"], "REJECT"):
                 rejected.append(r["id"])
     return rejected
+
+
+_cli = {}
+
+
+def build_cli():
+    """Builds the five command-line tools from /repo's working tree into /verif/work/target-cli."""
+    if "dir" in _cli:
+        return _cli["dir"]
+    tdir = os.path.join(WORK, "target-cli")
+    t0 = time.time()
+    cmd = ["cargo", "build", "--offline", "--quiet", "-p", "predict", "-p", "evaluate", "-p", "manipulate_model", "-p", "train",
+           "-p", "convert_kytea_model", "--target-dir", tdir]
+    p = subprocess.run(cmd, cwd="/repo", env=cargo_env(), stdout=subprocess.PIPE, stderr=subprocess.STDOUT, text=True)
+    if p.returncode != 0:
+        raise BuildError("building the CLIs failed:\n" + p.stdout[-3000:])
+    log(f"[build] CLIs in {time.time() - t0:.1f}s")
+    _cli["dir"] = os.path.join(tdir, "debug")
+    return _cli["dir"]
